@@ -97,6 +97,10 @@ func verifIngress(f []string) *networking.Ingress {
 		if len(paths) > 0 {
 			rule.HTTP = &networking.HTTPIngressRuleValue{}
 			for _, p := range paths {
+				pt := pt
+				if p == "E" { // the empty path, admissible with pathType ImplementationSpecific only
+					p, pt = "", networking.PathTypeImplementationSpecific
+				}
 				rule.HTTP.Paths = append(rule.HTTP.Paths, networking.HTTPIngressPath{
 					Path: p, PathType: &pt,
 					Backend: networking.IngressBackend{Service: &networking.IngressServiceBackend{Name: "svc", Port: networking.ServiceBackendPort{Number: 80}}},
